@@ -180,6 +180,7 @@ class C20(ParserSessionProp):
             'token_style': rng.choice(['plain', 'annotated']),
             'stack_scan': gen.stream(seed, 'C20:stack', index).random() < 0.3,
             'nb_parent': gen.stream(seed, 'C20:nb', index).random() < 0.3,
+            'huge': (lambda r: r.choice([17, 33]) if r.random() < 0.004 else 0)(gen.stream(seed, 'C20:huge', index)),
         }
         return spec
 
@@ -218,6 +219,18 @@ class C20(ParserSessionProp):
                 Category.parse(parent), Tree.make_terminal(Token.of_word('John'), Category.parse(x)),
                 Tree.make_terminal(Token.of_word("'s"), Category.parse(y)), 'fa', '>', True)))
             bump(stats, 'probe:node_whose_category_differs_from_the_rule_result_by_nb')
+        if f.get('huge'):
+            # a corpus-sized file (beyond 2^24 and 2^25 characters) out of few records: leaves with URL-/base64-like tokens
+            # of a megabyte each, the small trees of this run before, between and after them
+            from depccg.tree import Tree
+            from depccg.types import Token
+            small = list(trees)
+            for j in range(f['huge']):
+                w = ('blob%d_' % j) + 'x' * (1 << 20)
+                trees.append(('arbitrary', Tree.make_terminal(Token.of_word(w), rng.choice(world.categories))))
+                if j % 6 == 5 and small:
+                    trees.append(small[(j // 6) % len(small)])
+            bump(stats, 'probe:file_beyond_2^24_characters')
         for _ in range(f['n_random_trees']):
             trees.append(('arbitrary', random_tree(rng, world.categories, words, lang, symbols=symbols,
                                                    token_style=f.get('token_style', 'plain'))))
@@ -340,7 +353,7 @@ class C20(ParserSessionProp):
 
         # ---- F11: the same file read under every stack budget between "fails at once" and "succeeds": a reading may
         # raise at any point, but every tree it yields before that has to be the tree that was written
-        if f.get('stack_scan'):
+        if f.get('stack_scan') and not f.get('huge'):
             from depsim import faults
             ok_in_a_row = 0
             for extra in range(6, 400):
@@ -371,6 +384,9 @@ class C20(ParserSessionProp):
             bump(stats, 'stack_scans')
 
         # ---- F8: writer crashed at every byte offset of the chosen records
+        if f.get('huge'):
+            stats['counters']['largest_file_bytes'] = max(stats['counters'].get('largest_file_bytes', 0), len(data))
+            return out            # (every byte offset of a 17-35 MB file is not affordable)
         which = range(len(records)) if f['torn'] == 'every' else [len(records) - 1]
         for k in which:
             start, body_start, end = spans[k]
